@@ -2,7 +2,7 @@
    Statements only. *)
 From Coq Require Import List String NArith ZArith Bool.
 From AM Require Import Rust.Ast Rust.Eval Gen.Error Gen.Asset Gen.Key Ref.Load Proofs.Load
-  Tie.Error Tie.LoadFromSource Gen.Flags Tie.Dirs Gen.Loaders Tie.Loaders.
+  Tie.Error Tie.LoadFromSource Gen.Flags Tie.Dirs Gen.Loaders Tie.Loaders Gen.Private Tie.Graph.
 From AM Require Ref.Utf8 Ref.Loaders Proofs.Loaders.
 Import ListNotations.
 Open Scope N_scope.
@@ -64,6 +64,11 @@ Proof. intros V. exact (@empty_extension_list V). Qed.
    one (files without extension) included *)
 Theorem C03_code_default_extension_list : defaults_wf = true.
 Proof. exact trait_defaults. Qed.
+
+(* where the default source looks for the bytes: FileSystem maps (id, ext) to root / segments of the
+   id, the extension set through set_extension -- a file of the empty extension is the bare stem *)
+Theorem C03_code_path_of_entry : path_of_entry_wf path_of_entry = true.
+Proof. exact path_of_entry_as_specified. Qed.
 
 (* ---- the built-in loaders ---- *)
 (* their code: ParseLoader = from_utf8, str::trim, parse; StringLoader = from_utf8 keeping the bytes;
